@@ -2,8 +2,8 @@
 //! observation of a real linfa dataset, and the scripted random number generator.
 
 use linfa::dataset::{AsTargets, CountedTargets, Label, Labels};
-use linfa::{Dataset, DatasetBase};
-use ndarray::{s, Array1, Array2, ArrayBase, Data, Ix1, Ix2, RawData, ShapeBuilder};
+use linfa::DatasetBase;
+use ndarray::{s, Array1, Array2, ArrayBase, Data, Ix2, RawData, ShapeBuilder};
 use serde::{Deserialize, Serialize};
 use std::collections::BTreeMap;
 
@@ -22,18 +22,19 @@ pub struct Model {
     pub t2: bool,
     /// targets are wrapped in `CountedTargets` (cached label counts)
     pub counted: bool,
-    /// the record buffer is column-major (the only hidden state of an owned dataset: produced by
-    /// `select(Axis(1), ..)`; decides whether the owned split panics as documented)
-    pub colmajor: bool,
-    /// second kind of hidden state: the owned record / target / weight array is a `slice_move` out
-    /// of a larger allocation (PAD_LEAD rows of poison before it, PAD_TRAIL after it; still
-    /// row-major standard layout). Decides what `into_raw_vec`-based code sees.
+    /// hidden state: how the record / target / weight arrays lie in memory (see `Lay`). Decides what
+    /// code that looks at raw buffers, `as_slice*` or `is_standard_layout` sees; the owned split
+    /// documents a panic for records / targets that are not row-major.
     #[serde(default)]
-    pub pad_rec: bool,
+    pub lr: Lay,
     #[serde(default)]
-    pub pad_tgt: bool,
+    pub lt: Lay,
     #[serde(default)]
-    pub pad_w: bool,
+    pub lw: Lay,
+    /// element type of the targets in the real dataset: "usize" | "bool" | "str" (&'static str) |
+    /// "string" (String, not Copy) | "i64" (signed, not a `Label`); labels are codes in the model
+    #[serde(default = "default_ltype")]
+    pub ltype: String,
     pub rec: Vec<Vec<f64>>,
     pub tgt: Vec<Vec<usize>>,
     /// `Some` (length n > 0) iff the dataset carries weights
@@ -42,16 +43,112 @@ pub struct Model {
     pub tnames: Vec<String>,
 }
 
+fn default_ltype() -> String {
+    "usize".to_string()
+}
+
+/// Memory layout of one container of the real dataset. All of them hold the same logical values.
+#[derive(Clone, Copy, Debug, Serialize, Deserialize, PartialEq, Eq, Default)]
+pub enum Lay {
+    /// freshly allocated row-major array
+    #[default]
+    Std,
+    /// column-major owned array (`.f()`; the same strides as the transposed view of a feature-major array)
+    ColMajor,
+    /// `slice_move` out of a larger allocation: PAD_LEAD poison rows in front, PAD_TRAIL behind (still row-major)
+    Sliced,
+    /// reversed rows of a reversed copy (negative row stride)
+    Reversed,
+    /// every second row of an allocation of 2n rows whose other rows hold poison
+    EverySecond,
+}
+
+impl Lay {
+    /// `is_standard_layout()` of an array of `n` rows x `cols` columns in this layout is false
+    pub fn not_row_major(self, n: usize, cols: usize) -> bool {
+        match self {
+            Lay::Std | Lay::Sliced => false,
+            Lay::ColMajor => n > 1 && cols > 1,
+            Lay::Reversed | Lay::EverySecond => n > 1,
+        }
+    }
+}
+
 /// Rows of the allocation in front of / behind a sliced owned array.
 pub const PAD_LEAD: usize = 2;
 pub const PAD_TRAIL: usize = 1;
-/// Poison values filling the part of the allocation outside the array: sample id 99, label 77,
-/// weight 990.5. None of them can be produced by an operation of the alphabet from in-array data.
-pub const POISON_SAMPLE: i64 = 99;
+/// Poison values filling the part of an allocation outside the array: record tag -(100+j) (sample
+/// id -1), label code 77, weight -7.5. None of them can be produced by an operation of the alphabet
+/// from in-array data.
+pub const POISON_SAMPLE: i64 = -1;
 pub const POISON_LABEL: usize = 77;
-pub const POISON_WEIGHT: f32 = 990.5;
+pub const POISON_WEIGHT: f32 = -7.5;
 pub fn poison_tag(j: usize) -> f64 {
-    (100 * POISON_SAMPLE as usize + j) as f64
+    -((100 + j) as f64)
+}
+
+/// Two-dimensional array with the given logical rows in the given layout.
+pub fn lay2<T: Clone>(rows: &[Vec<T>], cols: usize, lay: Lay, poison: &dyn Fn(usize) -> T) -> Array2<T> {
+    let n = rows.len();
+    let prow = || (0..cols).map(poison);
+    match lay {
+        Lay::Std => Array2::from_shape_vec((n, cols), rows.iter().flatten().cloned().collect()).unwrap(),
+        Lay::ColMajor => {
+            let mut v = Vec::with_capacity(n * cols);
+            for j in 0..cols {
+                for r in rows {
+                    v.push(r[j].clone());
+                }
+            }
+            Array2::from_shape_vec((n, cols).f(), v).unwrap()
+        }
+        Lay::Sliced => {
+            let mut v: Vec<T> = Vec::with_capacity((n + PAD_LEAD + PAD_TRAIL) * cols);
+            for _ in 0..PAD_LEAD {
+                v.extend(prow());
+            }
+            v.extend(rows.iter().flatten().cloned());
+            for _ in 0..PAD_TRAIL {
+                v.extend(prow());
+            }
+            Array2::from_shape_vec((n + PAD_LEAD + PAD_TRAIL, cols), v).unwrap().slice_move(s![PAD_LEAD..PAD_LEAD + n, ..])
+        }
+        Lay::Reversed => {
+            let v: Vec<T> = rows.iter().rev().flatten().cloned().collect();
+            Array2::from_shape_vec((n, cols), v).unwrap().slice_move(s![..;-1, ..])
+        }
+        Lay::EverySecond => {
+            let mut v: Vec<T> = Vec::with_capacity(2 * n * cols);
+            for r in rows {
+                v.extend(r.iter().cloned());
+                v.extend(prow());
+            }
+            Array2::from_shape_vec((2 * n, cols), v).unwrap().slice_move(s![..;2, ..])
+        }
+    }
+}
+
+/// One-dimensional array with the given logical values in the given layout (ColMajor = Std).
+pub fn lay1<T: Clone>(vals: &[T], lay: Lay, poison: T) -> Array1<T> {
+    let n = vals.len();
+    match lay {
+        Lay::Std | Lay::ColMajor => Array1::from(vals.to_vec()),
+        Lay::Sliced => {
+            let mut v = vec![poison.clone(); PAD_LEAD];
+            v.extend(vals.iter().cloned());
+            v.extend(vec![poison; PAD_TRAIL]);
+            Array1::from(v).slice_move(s![PAD_LEAD..PAD_LEAD + n])
+        }
+        Lay::Reversed => Array1::from(vals.iter().rev().cloned().collect::<Vec<T>>()).slice_move(s![..;-1]),
+        Lay::EverySecond => {
+            let mut v = Vec::with_capacity(2 * n);
+            for x in vals {
+                v.push(x.clone());
+                v.push(poison.clone());
+            }
+            Array1::from(v).slice_move(s![..;2])
+        }
+    }
 }
 
 impl Model {
@@ -67,9 +164,13 @@ impl Model {
         let mut b: Vec<u8> = Vec::with_capacity(32 + self.n() * (self.nf * 2 + self.nt + 4));
         b.push(self.nf as u8);
         b.push(self.nt as u8);
-        b.push(self.t2 as u8 | (self.counted as u8) << 1 | (self.colmajor as u8) << 2 | (self.w.is_some() as u8) << 3);
+        b.push(self.t2 as u8 | (self.counted as u8) << 1 | (self.w.is_some() as u8) << 3);
         b.push(self.n() as u8);
-        b.push(self.pad_rec as u8 | (self.pad_tgt as u8) << 1 | (self.pad_w as u8) << 2);
+        b.push(self.lr as u8);
+        b.push(self.lt as u8);
+        b.push(self.lw as u8);
+        b.extend_from_slice(self.ltype.as_bytes());
+        b.push(0);
         for r in &self.rec {
             for &x in r {
                 b.extend_from_slice(&(x as f32).to_bits().to_le_bytes());
@@ -102,7 +203,13 @@ pub fn feature_of(tag: f64) -> i64 {
 
 /// The seeds (initial states). `labelling`: "cyc" = i mod 3, "id" = i (all distinct).
 pub fn seed(n: usize, nf: usize, targets: &str, labelling: &str, weights: bool, names: bool) -> Model {
-    let lab = |i: usize| if labelling == "id" { i } else { i % 3 };
+    // "cyc": i mod 3; "id": i (all distinct); "bin": i mod 2 (two-valued element types)
+    let lab = |i: usize| match labelling {
+        "id" => i,
+        "bin" => i % 2,
+        _ => i % 3,
+    };
+    let second = |i: usize| if labelling == "bin" { (i / 2) % 2 } else { (i / 2) % 3 };
     let (t2, nt) = match targets {
         "ix1" => (false, 1),
         "ix2x1" => (true, 1),
@@ -114,13 +221,13 @@ pub fn seed(n: usize, nf: usize, targets: &str, labelling: &str, weights: bool, 
         nt,
         t2,
         counted: false,
-        colmajor: false,
-        pad_rec: false,
-        pad_tgt: false,
-        pad_w: false,
+        lr: Lay::Std,
+        lt: Lay::Std,
+        lw: Lay::Std,
+        ltype: default_ltype(),
         rec: (0..n).map(|i| (0..nf).map(|j| (100 * (i + 1) + j) as f64).collect()).collect(),
         // second target column: i div 2 mod 3, so that the pairs (col0, col1) are distinct for n <= 6
-        tgt: (0..n).map(|i| if nt == 2 { vec![lab(i), (i / 2) % 3] } else { vec![lab(i)] }).collect(),
+        tgt: (0..n).map(|i| if nt == 2 { vec![lab(i), second(i)] } else { vec![lab(i)] }).collect(),
         w: if weights && n > 0 { Some((0..n).map(|i| 0.5 + i as f32).collect()) } else { None },
         fnames: if names { (0..nf).map(|j| format!("f{}", j)).collect() } else { vec![] },
         tnames: if names { (0..nt).map(|c| format!("t{}", c)).collect() } else { vec![] },
@@ -214,91 +321,6 @@ impl Act {
 // ------------------------------------------------------------------------------------------------
 // the real datasets
 
-pub type P1 = Dataset<f64, usize, Ix1>;
-pub type P2 = Dataset<f64, usize, Ix2>;
-pub type C1 = DatasetBase<Array2<f64>, CountedTargets<usize, Array1<usize>>>;
-pub type C2 = DatasetBase<Array2<f64>, CountedTargets<usize, Array2<usize>>>;
-
-pub enum Live {
-    P1(P1),
-    P2(P2),
-    C1(C1),
-    C2(C2),
-}
-
-/// Builds the real linfa dataset of a model state through the plain constructors (trusted base:
-/// `DatasetBase::new`, `with_weights`, `with_feature_names`, `with_target_names`, `CountedTargets::new`).
-pub fn build(m: &Model) -> Live {
-    let n = m.n();
-    let records: Array2<f64> = if m.colmajor {
-        let mut v = Vec::with_capacity(n * m.nf);
-        for j in 0..m.nf {
-            for i in 0..n {
-                v.push(m.rec[i][j]);
-            }
-        }
-        Array2::from_shape_vec((n, m.nf).f(), v).unwrap()
-    } else if m.pad_rec {
-        let mut v: Vec<f64> = Vec::with_capacity((n + PAD_LEAD + PAD_TRAIL) * m.nf);
-        for _ in 0..PAD_LEAD {
-            v.extend((0..m.nf).map(poison_tag));
-        }
-        v.extend(m.rec.iter().flatten().cloned());
-        for _ in 0..PAD_TRAIL {
-            v.extend((0..m.nf).map(poison_tag));
-        }
-        Array2::from_shape_vec((n + PAD_LEAD + PAD_TRAIL, m.nf), v).unwrap().slice_move(s![PAD_LEAD..PAD_LEAD + n, ..])
-    } else {
-        Array2::from_shape_vec((n, m.nf), m.rec.iter().flatten().cloned().collect()).unwrap()
-    };
-    let w: Array1<f32> = match &m.w {
-        Some(w) if m.pad_w => {
-            let mut v = vec![POISON_WEIGHT; PAD_LEAD];
-            v.extend(w.iter().cloned());
-            v.extend(vec![POISON_WEIGHT; PAD_TRAIL]);
-            Array1::from(v).slice_move(s![PAD_LEAD..PAD_LEAD + n])
-        }
-        Some(w) => Array1::from(w.clone()),
-        None => Array1::zeros(0),
-    };
-    let mut flat: Vec<usize> = m.tgt.iter().flatten().cloned().collect();
-    let tn = if m.pad_tgt {
-        let mut v = vec![POISON_LABEL; PAD_LEAD * m.nt];
-        v.extend(flat.iter().cloned());
-        v.extend(vec![POISON_LABEL; PAD_TRAIL * m.nt]);
-        flat = v;
-        n + PAD_LEAD + PAD_TRAIL
-    } else {
-        n
-    };
-    macro_rules! finish {
-        ($ds:expr) => {
-            $ds.with_weights(w).with_feature_names(m.fnames.clone()).with_target_names(m.tnames.clone())
-        };
-    }
-    if m.t2 {
-        let mut t = Array2::from_shape_vec((tn, m.nt), flat).unwrap();
-        if m.pad_tgt {
-            t = t.slice_move(s![PAD_LEAD..PAD_LEAD + n, ..]);
-        }
-        if m.counted {
-            Live::C2(finish!(DatasetBase::new(records, CountedTargets::new(t))))
-        } else {
-            Live::P2(finish!(DatasetBase::new(records, t)))
-        }
-    } else {
-        let mut t = Array1::from(flat);
-        if m.pad_tgt {
-            t = t.slice_move(s![PAD_LEAD..PAD_LEAD + n]);
-        }
-        if m.counted {
-            Live::C1(finish!(DatasetBase::new(records, CountedTargets::new(t))))
-        } else {
-            Live::P1(finish!(DatasetBase::new(records, t)))
-        }
-    }
-}
-
 // ------------------------------------------------------------------------------------------------
 // uniform observation of any dataset value through the public accessors
 
@@ -308,6 +330,8 @@ pub struct Obs {
     pub nf: usize,
     pub rec: Vec<Vec<f64>>,
     pub colmajor: bool,
+    /// the target array is not in row-major standard layout
+    pub t_nonstd: bool,
     /// number of rows of the target array (must equal n)
     pub tn: usize,
     pub nt: usize,
@@ -315,8 +339,10 @@ pub struct Obs {
     pub tgt: Vec<Vec<usize>>,
     /// raw weight vector (public field), whatever its length
     pub w: Vec<f32>,
-    /// length reported by the `weights()` accessor
-    pub w_accessor: Option<usize>,
+    /// length reported by the `weights()` accessor (Err = the accessor panicked)
+    pub w_accessor: Result<Option<usize>, String>,
+    /// the weight array is not contiguous in memory
+    pub w_strided: bool,
     pub fnames: Vec<String>,
     pub tnames: Vec<String>,
     /// `label_count()` as reported by the value
@@ -324,17 +350,58 @@ pub struct Obs {
     pub counted: bool,
 }
 
-pub trait LabelCode: Label {
+/// Element types of the targets: the model holds label codes, the real dataset holds `enc(code)`.
+pub trait Lab: Clone + 'static {
+    fn enc(c: usize) -> Self;
     fn code(&self) -> usize;
+    /// the function given to `map_targets`: code + 1
+    fn bump(&self) -> Self {
+        Self::enc(self.code() + 1)
+    }
 }
-impl LabelCode for usize {
+impl Lab for usize {
+    fn enc(c: usize) -> Self {
+        c
+    }
     fn code(&self) -> usize {
         *self
     }
 }
-impl LabelCode for bool {
+impl Lab for bool {
+    fn enc(c: usize) -> Self {
+        c != 0
+    }
     fn code(&self) -> usize {
         *self as usize
+    }
+}
+impl Lab for i64 {
+    // signed: codes 0.. are the values -3, -2, -1, 0, 1, ..
+    fn enc(c: usize) -> Self {
+        c as i64 - 3
+    }
+    fn code(&self) -> usize {
+        (*self + 3) as usize
+    }
+}
+impl Lab for String {
+    fn enc(c: usize) -> Self {
+        format!("l{}", c)
+    }
+    fn code(&self) -> usize {
+        self[1..].parse().unwrap()
+    }
+}
+fn str_table() -> &'static Vec<&'static str> {
+    static T: std::sync::OnceLock<Vec<&'static str>> = std::sync::OnceLock::new();
+    T.get_or_init(|| (0..128).map(|c| &*Box::leak(format!("l{}", c).into_boxed_str())).collect())
+}
+impl Lab for &'static str {
+    fn enc(c: usize) -> Self {
+        str_table()[c]
+    }
+    fn code(&self) -> usize {
+        self[1..].parse().unwrap()
     }
 }
 
@@ -348,17 +415,19 @@ impl<L: Label, P> TKind for CountedTargets<L, P> {
     const COUNTED: bool = true;
 }
 
-pub fn observe<L, D, T>(ds: &DatasetBase<ArrayBase<D, Ix2>, T>) -> Obs
+fn observe_core<L, D, T>(ds: &DatasetBase<ArrayBase<D, Ix2>, T>, counts: Option<Vec<BTreeMap<usize, usize>>>) -> Obs
 where
-    L: LabelCode,
+    L: Lab,
     D: Data<Elem = f64>,
-    T: AsTargets<Elem = L> + Labels<Elem = L> + TKind,
+    T: AsTargets<Elem = L> + TKind,
 {
     let r = ds.records();
     let (n, nf) = r.dim();
     let rec: Vec<Vec<f64>> = (0..n).map(|i| (0..nf).map(|j| r[(i, j)]).collect()).collect();
     let colmajor = !r.is_standard_layout();
-    let t = ds.as_targets().into_dyn();
+    let t0 = ds.as_targets();
+    let t_nonstd = !t0.is_standard_layout();
+    let t = t0.into_dyn();
     let (t2, tn, nt, tgt): (bool, usize, usize, Vec<Vec<usize>>) = match t.ndim() {
         1 => (false, t.len(), 1, t.iter().map(|x| vec![x.code()]).collect()),
         2 => {
@@ -367,22 +436,55 @@ where
         }
         _ => unreachable!(),
     };
+    let counts = counts.unwrap_or_else(|| {
+        // element type without label counting: nothing to compare, the recount stands in
+        let mut c = vec![BTreeMap::new(); nt];
+        for row in &tgt {
+            for (j, &l) in row.iter().enumerate() {
+                *c[j].entry(l).or_insert(0) += 1;
+            }
+        }
+        c
+    });
     Obs {
         n,
         nf,
         rec,
         colmajor,
+        t_nonstd,
         tn,
         nt,
         t2,
         tgt,
         w: ds.weights.iter().cloned().collect(),
-        w_accessor: ds.weights().map(|s| s.len()),
+        w_accessor: lvmc_core::guarded(|| ds.weights().map(|s| s.len())),
+        w_strided: ds.weights.as_slice().is_none(),
         fnames: ds.feature_names().to_vec(),
         tnames: ds.target_names().to_vec(),
-        counts: ds.label_count().into_iter().map(|m| m.into_iter().map(|(k, v)| (k.code(), v)).collect()).collect(),
+        counts,
         counted: T::COUNTED,
     }
+}
+
+/// Observation of a dataset whose target elements are labels (label counts included).
+pub fn observe<L, D, T>(ds: &DatasetBase<ArrayBase<D, Ix2>, T>) -> Obs
+where
+    L: Lab + Label,
+    D: Data<Elem = f64>,
+    T: AsTargets<Elem = L> + Labels<Elem = L> + TKind,
+{
+    let counts = ds.label_count().into_iter().map(|m| m.into_iter().map(|(k, v)| (k.code(), v)).collect()).collect();
+    observe_core(ds, Some(counts))
+}
+
+/// Observation of a dataset whose target elements are not labels (signed integers).
+pub fn observe_plain<L, D, T>(ds: &DatasetBase<ArrayBase<D, Ix2>, T>) -> Obs
+where
+    L: Lab,
+    D: Data<Elem = f64>,
+    T: AsTargets<Elem = L> + TKind,
+{
+    observe_core(ds, None)
 }
 
 impl Obs {
@@ -393,10 +495,10 @@ impl Obs {
             nt: self.nt,
             t2: self.t2,
             counted: self.counted,
-            colmajor: self.colmajor,
-            pad_rec: false,
-            pad_tgt: false,
-            pad_w: false,
+            lr: if self.colmajor { Lay::ColMajor } else { Lay::Std },
+            lt: if self.t_nonstd { Lay::ColMajor } else { Lay::Std },
+            lw: Lay::Std,
+            ltype: default_ltype(),
             rec: self.rec.clone(),
             tgt: self.tgt.clone(),
             w: if !self.w.is_empty() && self.w.len() == self.n { Some(self.w.clone()) } else { None },
